@@ -108,6 +108,24 @@ fn verify_value(s: &str, v: Version, e: [u32; 4]) -> Result<(), (String, String)
     if Version::from_str(&printed).ok() != Some(v) {
         return Err((format!("parse(print(v)) != v for {printed:?}"), String::new()));
     }
+    // printing through a format spec with width, fill, alignment, sign or zero flags still yields the
+    // canonical form (possibly padded as a whole), never a form that does not parse back
+    let c = canon(e);
+    let flagged: Vec<(&str, String)> = vec![
+        ("{:>6}", format!("{:>6}", v)),
+        ("{:<24}", format!("{:<24}", v)),
+        ("{:^30}", format!("{:^30}", v)),
+        ("{:03}", format!("{:03}", v)),
+        ("{:+}", format!("{:+}", v)),
+        ("{:#}", format!("{:#}", v)),
+        ("{:*>40}", format!("{:*>40}", v)),
+    ];
+    for (spec, out) in &flagged {
+        let core = out.trim_matches(|ch: char| ch == ' ' || ch == '*');
+        if core != c {
+            return Err((format!("printing with the format spec {spec} does not yield the canonical form"), format!("{out:?} for {c}")));
+        }
+    }
     let js = serde_json::to_string(&v).map_err(|e| ("serialisation failed".to_string(), e.to_string()))?;
     if js != format!("\"{}\"", canon(e)) {
         return Err((format!("JSON form of {printed} is {js}"), String::new()));
